@@ -28,9 +28,9 @@ structure Basic (cfg : Cfg) (s : St) : Prop where
     (s.cons = .closeW ∨ s.cons = .closeP ∨ s.cons = .close1 ∨ s.cons = .close2 ∨ s.cons = .ret)
   cons_pcancel : cfg.fix5 = true →
     (s.cons = .closeW ∨ s.cons = .closeP ∨ s.cons = .close1 ∨ s.cons = .close2 ∨ s.cons = .ret) → s.pcancel = true
+  closeW_fix : cfg.fix5 = false → s.cons ≠ .closeW
   joined : cfg.fix5 = true → (s.cons = .closeP ∨ s.cons = .close1 ∨ s.cons = .close2 ∨ s.cons = .ret) →
     s.pStopped = true
-  noBad : cfg.fix5 = true → s.badWindow = false ∧ s.badOverlap = false
   tgtCl : s.tgtClosed = true ↔ s.prod = .done
   done_exit : s.prod = .done → s.wExit = cfg.c
   exit_why : 0 < s.wExit → s.ctx1 = true ∨ s.srcChClosed = true
@@ -52,6 +52,60 @@ theorem basic_step {cfg : Cfg} {s s' : St} {l : Label} (h : Basic cfg s) (hs : s
 
 theorem basic {cfg : Cfg} {s : St} (hr : Reachable (sys cfg) s) : Basic cfg s :=
   invariant (sys := sys cfg) (basic_init cfg) (fun _ _ _ h hs => basic_step h hs) s hr
+
+/-- The code as it is (`fix5`): no Emit ever starts outside the open window and Close never overlaps an Emit. -/
+def NoBad (s : St) : Prop := s.badWindow = false ∧ s.badOverlap = false
+
+theorem noBad_step {cfg : Cfg} {s s' : St} {l : Label} (hfix : cfg.fix5 = true) (hb : Basic cfg s) (h : NoBad s)
+    (hs : step cfg s l = some s') : NoBad s' := by
+  obtain ⟨w1, w2⟩ := h
+  unfold NoBad
+  by_cases hl : l = .pTop
+  · subst hl
+    simp only [step] at hs
+    split at hs
+    · split at hs
+      · simp at hs; subst hs; exact ⟨w1, w2⟩
+      · rename_i hp hctx
+        simp only [Option.some.injEq] at hs
+        subst hs
+        refine ⟨?_, w2⟩
+        -- producerCtx is live, so cancelProducer was not called, so Close was not called
+        have hpc : s.pcancel = false := by
+          cases h : s.pcancel
+          · rfl
+          · simp [St.pctx, h] at hctx
+        have hcl : s.srcClosed = false := by
+          cases h : s.srcClosed
+          · rfl
+          · have hc := hb.closed_iff.mp h
+            have := hb.cons_pcancel hfix (by rcases hc with h | h | h <;> simp [h])
+            simp [hpc] at this
+        simp [w1, hcl]
+    · simp at hs
+  · by_cases hl2 : l = .cCloseP
+    · subst hl2
+      simp only [step] at hs
+      split at hs
+      · rename_i hc
+        simp only [Option.some.injEq] at hs
+        subst hs
+        refine ⟨w1, ?_⟩
+        have hst := hb.joined hfix (Or.inl hc)
+        have hp := hb.pStop_iff.mp hst
+        have he := hb.emitting_eq
+        have : s.emitting = 0 := by rcases hp with h | h | h <;> simpa [h] using he
+        simp [w2, this]
+      · simp at hs
+    · step_cases hs <;> (first | exact absurd rfl hl | exact absurd rfl hl2 | exact ⟨w1, w2⟩)
+
+theorem noBad {cfg : Cfg} {s : St} (hfix : cfg.fix5 = true) (hr : Reachable (sys cfg) s) : NoBad s := by
+  have : Basic cfg s ∧ NoBad s := by
+    refine invariant (sys := sys cfg) (P := fun s => Basic cfg s ∧ NoBad s) ?_ ?_ s hr
+    · exact ⟨basic_init cfg, by simp [NoBad, sys, init]⟩
+    · intro s l s' h hs
+      exact ⟨basic_step h.1 hs, noBad_step hfix h.1 h.2 hs⟩
+  exact this.2
 
 @[simp] theorem cntItems_nil (i : Nat) : cntItems i [] = 0 := rfl
 theorem cntItems_cons (i : Nat) (it : Item) (l : List Item) :
